@@ -91,11 +91,11 @@ def sfield(prog, state, name):
     return H.get_field(prog, state, 'GenericState', name)
 
 
-def native_ops(ts, diffs, thr=2, extra=(), net='regtest', coinbase=True):
+def native_ops(ts, diffs, thr=2, extra=(), net='regtest', coinbase=True, stable_prefix=0):
     anchor = dict(id=1, difficulty=str(diffs[1]))
     if coinbase:
         anchor['coinbase'] = [[7, 1001]]
-    ops = [dict(op='init', network=net, threshold=thr, anchor=anchor)]
+    ops = [dict(op='init', network=net, threshold=thr, anchor=anchor, **({'stable_prefix': stable_prefix} if stable_prefix else {}))]
     for k, p in enumerate(ts.parents):
         i = k + 2
         o = dict(op='push', id=i, parent=p, difficulty=str(diffs[i]))
